@@ -74,6 +74,8 @@ type wireExtractor struct {
 	depth    int
 	// loop variable of an unrolled `for _, v := range []T{a, b, c}` -> the element it stands for
 	subst map[types.Object]ast.Expr
+	// variadic parameter of a helper being inlined -> the arguments of the call being inlined
+	variadic map[types.Object][]ast.Expr
 }
 
 // undecodedReads: Data.Read calls in body whose slice result variable is not an
@@ -178,6 +180,37 @@ func (x *wireExtractor) sigOf(obj *types.Func) []wireItem {
 	return items
 }
 
+// sigWithVariadic: the signature of obj's body with its variadic parameter
+// bound to the explicit arguments of one call (not cached: it depends on them).
+func (x *wireExtractor) sigWithVariadic(obj *types.Func, args []ast.Expr) []wireItem {
+	if x.active[obj] || x.depth > 4 {
+		return nil
+	}
+	decl := x.c.declOf[obj]
+	sig := obj.Type().(*types.Signature)
+	if decl == nil || decl.Body == nil || !sig.Variadic() {
+		return nil
+	}
+	vp := sig.Params().At(sig.Params().Len() - 1)
+	if x.variadic == nil {
+		x.variadic = map[types.Object][]ast.Expr{}
+	}
+	x.variadic[vp] = args
+	defer delete(x.variadic, vp)
+	x.active[obj] = true
+	x.depth++
+	saved := x.carrier
+	x.carrier = map[string]bool{}
+	savedRaw := x.rawReads
+	x.rawReads = x.undecodedReads(decl.Body)
+	defer func() { x.rawReads = savedRaw }()
+	items := x.block(decl.Body.List)
+	x.carrier = saved
+	x.depth--
+	delete(x.active, obj)
+	return items
+}
+
 func (x *wireExtractor) block(list []ast.Stmt) []wireItem {
 	var out []wireItem
 	for _, s := range list {
@@ -210,14 +243,24 @@ func (x *wireExtractor) stmt(s ast.Stmt) []wireItem {
 		pre := x.expr(s.X)
 		// a loop over a literal list of values (`for _, v := range []interface{}{a, b, c}`)
 		// is the sequence of its iterations: unroll it, v standing for each element in turn
-		if lit := x.literalOf(s.X); lit != nil && len(lit.Elts) > 0 && len(lit.Elts) <= 32 && s.Value != nil && (s.Key == nil || isBlank(s.Key)) {
+		var elts []ast.Expr
+		if lit := x.literalOf(s.X); lit != nil {
+			elts = lit.Elts
+		} else if id, ok := ast.Unparen(s.X).(*ast.Ident); ok && x.variadic != nil {
+			// ranging over the variadic parameter of a helper that is being
+			// inlined at a call with explicit arguments
+			if args, ok := x.variadic[x.info.Uses[id]]; ok {
+				elts = args
+			}
+		}
+		if len(elts) > 0 && len(elts) <= 32 && s.Value != nil && (s.Key == nil || isBlank(s.Key)) {
 			if vid, ok := s.Value.(*ast.Ident); ok && x.info.Defs[vid] != nil {
 				obj := x.info.Defs[vid]
 				if x.subst == nil {
 					x.subst = map[types.Object]ast.Expr{}
 				}
 				out := pre
-				for _, e := range lit.Elts {
+				for _, e := range elts {
 					if kv, ok := e.(*ast.KeyValueExpr); ok {
 						e = kv.Value
 					}
@@ -599,7 +642,12 @@ func (x *wireExtractor) call(call *ast.CallExpr) []wireItem {
 	}
 	// inline in-package callees that are pure emitters/decoders of part of the caller's record
 	if fn.Pkg() == x.c.Root.Types && !wireBoundary[declName(fn)] {
-		sub := x.sigOf(fn)
+		var sub []wireItem
+		if sig := fn.Type().(*types.Signature); sig.Variadic() && !call.Ellipsis.IsValid() && len(call.Args) >= sig.Params().Len()-1 && fn.Name() != "writeUvarints" {
+			sub = x.sigWithVariadic(fn, call.Args[sig.Params().Len()-1:])
+		} else {
+			sub = x.sigOf(fn)
+		}
 		// a scratch buffer filled by Put* and handed to a pure forwarding helper (signature: one RAW) is the carrier of that primitive
 		if len(sub) == 1 && sub[0].Kind == "RAW" {
 			for _, a := range call.Args {
